@@ -1,0 +1,19 @@
+//go:build verif
+
+package partitions
+
+import (
+	"github.com/0chain/common/core/statecache"
+	"github.com/0chain/common/core/util"
+)
+
+// VerifPartsValue is what the state-cache engine needs from a cacheable entity.
+type VerifPartsValue interface {
+	statecache.Value
+	util.MPTSerializable
+}
+
+// constructors for the unexported cacheable types of this package (no logic)
+func VerifPartsNewPartition() VerifPartsValue  { return &partition{} }
+func VerifPartsNewLocation() VerifPartsValue   { return &location{} }
+func VerifPartsNewPartitions() VerifPartsValue { return &Partitions{} }
